@@ -47,7 +47,7 @@ def check_live(case, interior_cap: int) -> Outcome:
     out = Outcome()
     T, url, consts = session.live_case_to_request(env, case)
     s = session.Session(env, T, url).load()
-    out.cls("tpl:" + case["template"], "stream:" + case["stream"], "start:" + case["clock"]["start"],
+    out.cls("tpl:" + case["template"], "stream:" + session.stream_label(case["stream"]), "start:" + case["clock"]["start"],
             "phi:" + case["clock"]["phi"],
             "loops:" + ("0" if case["clock"]["loops"] == 0 else "<100" if case["clock"]["loops"] < 100 else ">=100"))
     if s.resp.status != 200:
@@ -109,6 +109,8 @@ def check_live(case, interior_cap: int) -> Outcome:
                 if young:
                     cond.append("young")
                 sig = f"{mode}/{ctype}/{edge}/{r.status}/" + "+".join(cond)
+                if r.status >= 500:
+                    sig = f"{mode}/{ctype}/5xx/{type(r.exc).__name__ if r.exc is not None else r.status}/{r.exc_where}"
                 out.fail(sig, f"T={T.isoformat()} manifest {url} rep {rep.id} {what} -> {r.status} "
                               f"(window index {j} of {total}, elapsed {float(elapsed):.6f}s, tsbd {m.tsbd}, "
                               f"segdur {segdur}, leeway {leeway}) {r.exc!r} {r.text[:80]!r}")
@@ -129,10 +131,11 @@ class LiveSessions(Engine):
 
     def strategy(self, tier):
         from hypothesis import strategies as st
-        from .. import app, strategies
+        from .. import app, strategies, synth
         app.boot()
         return st.fixed_dictionaries({
-            "stream": st.sampled_from(["bbb", "tears"]),
+            "stream": st.one_of(st.sampled_from(["bbb", "tears"]),
+                                st.builds(lambda sp: {"synth": sp}, synth.stream_specs())),
             "template": st.sampled_from(live_templates()),
             "opts": strategies.live_option_vector(),
             "clock": strategies.live_clock(),
